@@ -256,7 +256,8 @@ fn check_session_rf(msgs: &[RefMsg], write_script: Vec<WriteAct>, write_default:
         for _ in 0..n_read_faults {
             let at = rng.usize(tape.len() - SENTINEL.len() + 1);
             if read_faults.iter().all(|f| f.0 != at) {
-                read_faults.push((at, *rng.pick(&[ReadFault::Fail(io::ErrorKind::TimedOut), ReadFault::Fail(io::ErrorKind::Other), ReadFault::Eof, ReadFault::Interrupted]), 1));
+                let hk = *rng.pick(&doubles::HARD_KINDS);
+                read_faults.push((at, *rng.pick(&[ReadFault::Fail(hk), ReadFault::Fail(io::ErrorKind::TimedOut), ReadFault::Eof, ReadFault::Interrupted]), 1));
             }
         }
         for _ in 0..rng.usize(4) {
@@ -532,6 +533,14 @@ fn cases(ctx: &Ctx, shard: usize, n_shards: usize, n_random: u64) -> Vec<Exchang
             for (tape, label) in reply_tapes(&mut rng, 3) {
                 all.push(plain(m.clone(), tape, label));
             }
+            // the reply is the very frame that was sent (an echo, or a sign that repeats the request): it is the reply
+            all.push(plain(m.clone(), with_sentinel(refs::wire(&m)), "reply_equals_request"));
+            all.push(plain(m.clone(), with_sentinel(refs::wire(&m).to_ascii_lowercase()), "reply_equals_request"));
+            all.push(plain(m.clone(), with_sentinel([refs::wire(&m), refs::wire(&m)].concat()), "reply_equals_request"));
+        }
+        for o in 0..N_OPS {
+            let m = RefMsg::Request(0xFFFF, o);
+            all.push(plain(m.clone(), with_sentinel(refs::wire(&m)), "reply_equals_request"));
         }
         // and for kinds that get no reply, whatever is waiting on the wire must stay there
         for m in [RefMsg::Goodbye(3), RefMsg::Complete(3), RefMsg::Count(7), RefMsg::Ack(3, 0), RefMsg::Report(3, 2)] {
@@ -594,7 +603,8 @@ fn cases(ctx: &Ctx, shard: usize, n_shards: usize, n_random: u64) -> Vec<Exchang
             RefMsg::Hello(a) | RefMsg::Query(a) | RefMsg::Request(a, _) => *a,
             _ => 3,
         };
-        let tapes = reply_tapes(&mut rng, own);
+        let mut tapes = reply_tapes(&mut rng, own);
+        tapes.push((with_sentinel(refs::wire(&m)), "reply_equals_request"));
         let (tape, label) = tapes[rng.usize(tapes.len())].clone();
         let mut x = plain(m, tape, label);
         if rng.chance(1, 3) {
@@ -602,7 +612,8 @@ fn cases(ctx: &Ctx, shard: usize, n_shards: usize, n_random: u64) -> Vec<Exchang
             x.read_boundaries = (1..n).filter(|_| rng.bool()).collect();
         }
         if rng.chance(1, 6) {
-            let f = *rng.pick(&[ReadFault::Interrupted, ReadFault::Fail(io::ErrorKind::TimedOut), ReadFault::Fail(io::ErrorKind::BrokenPipe), ReadFault::Eof]);
+            let (hk1, hk2) = (*rng.pick(&doubles::HARD_KINDS), *rng.pick(&doubles::HARD_KINDS));
+            let f = *rng.pick(&[ReadFault::Interrupted, ReadFault::Fail(hk1), ReadFault::Fail(hk2), ReadFault::Eof]);
             x.read_faults = vec![(rng.usize(x.tape.len() + 1), f, if f == ReadFault::Interrupted { 1 + rng.usize(2) } else { usize::MAX })];
             if f == ReadFault::Eof {
                 x.read_faults[0].2 = 1;
@@ -612,7 +623,8 @@ fn cases(ctx: &Ctx, shard: usize, n_shards: usize, n_random: u64) -> Vec<Exchang
             x.write_default = WriteAct::Accept(1 + rng.usize(8));
             if rng.bool() {
                 x.write_script = (0..rng.usize(6)).map(|_| WriteAct::Accept(1 + rng.usize(4))).collect();
-                x.write_script.push(*rng.pick(&[WriteAct::Interrupted, WriteAct::Zero, WriteAct::Fail(io::ErrorKind::Other)]));
+                let hk = *rng.pick(&doubles::HARD_KINDS);
+                x.write_script.push(*rng.pick(&[WriteAct::Interrupted, WriteAct::Zero, WriteAct::Fail(hk)]));
             }
         }
         all.push(x);
